@@ -236,6 +236,22 @@ CHECKS = {
         "case.",
         "DESIGN.md section 4, C15",
     ),
+    "C16": (
+        "exploration",
+        "property-based testing (Hypothesis) of generated scripts: bash -n, "
+        "compile, header parser, stub-execution of the embedded program per "
+        "task index, and real execution with bash and stub scheduler "
+        "variables",
+        "Generated scheduler/mode/crop-state/batch_ids/option combinations: "
+        "every script is syntax-checked by bash, its embedded program is "
+        "compiled and run once per array index against stub grow/Crop "
+        "objects, and the header's array range is parsed; a sample is really "
+        "executed with bash (and the xyzpy-grow command line is run) and the "
+        "crop inspected: exactly the intended result files, every setting "
+        "evaluated once, reap equal to the direct run.",
+        "No scheduler present; exit status of the scripts is not used.",
+        "DESIGN.md section 4, C16",
+    ),
     "C19": (
         "exploration",
         "property-based testing (Hypothesis) against an exact Fraction "
